@@ -310,6 +310,26 @@ theorem C19_bad_sites_order (fs : Fs) (inputs reads reads' : List File) (h : ∀
       | step _ hedge ih => exact .step ih ((he _).mpr hedge)
   simp only [C19_bad_sites_spec, h, hb, hreach]
 
+/-- `v` leads to `t`: `t` is `v`, or a file that `v` — read, not named — includes leads to `t` -/
+inductive Leads (fs : Fs) (inputs reads : List File) : File → File → Prop
+  | here (t : File) : Leads fs inputs reads t t
+  | step {v w t : File} (i : Inc) : v ∈ reads → i ∈ fs.incs v → resolve fs.libs i = some w → w ∉ inputs →
+      Leads fs inputs reads w t → Leads fs inputs reads v t
+
+theorem leads_reach (fs : Fs) (inputs reads : List File) {v t : File} (h : Leads fs inputs reads v t) :
+    Taint.Reach (upEdges fs inputs reads) t v := by
+  induction h with
+  | here t => exact .refl
+  | step i hv hi hr hw _ ih => exact .step ih ((mem_upEdges fs inputs reads _ _).mpr ⟨hv, hw, i, hi, hr⟩)
+
+/-- **a broken file below a named file is visible in the named file**: if a named file `u` that was read has an include statement
+    whose target `v` (not named) leads, through include statements of files that were read and are not named, to a file `t` that
+    cannot be used, then that include statement of `u` is reported — however long the chain is -/
+theorem C19_broken_file_visible (fs : Fs) (inputs reads : List File) (u : File) (idx : Nat) (i : Inc) (v t : File)
+    (hu : u ∈ reads) (hi : (fs.incs u)[idx]? = some i) (hr : resolve fs.libs i = some v) (hv : v ∉ inputs)
+    (hl : Leads fs inputs reads v t) (ht : t ∈ badFiles fs inputs reads) : (u, idx) ∈ badSites fs inputs reads :=
+  (C19_bad_sites_spec fs inputs reads u idx).mpr ⟨hu, i, v, hi, hr, hv, t, ht, leads_reach fs inputs reads hl⟩
+
 /-- non-vacuity: `0` (named) includes `1`, which includes `2`, which cannot be parsed: both include statements are reported, the
     one in the named file is the one the user sees -/
 example : badSites { files := [{ ok := true, includes := [{ rel := some 1, dot := false, sep := false, key := 1 }] },
